@@ -166,6 +166,7 @@ impl<'a> SegRunner<'a> {
     pub fn step_injected(&mut self, op: &Op, k: usize) -> bool {
         if self.dead || self.real.is_none() { return false; }
         crate::run::progress();
+        let pre = self.real.as_ref().unwrap().state().unwrap_or_else(|e| format!("ABSFAIL {}", e));
         cb_reset(Some(k), false);
         let real = self.real.as_mut().unwrap();
         let res = catch_unwind(AssertUnwindSafe(|| real.apply(op)));
@@ -174,6 +175,17 @@ impl<'a> SegRunner<'a> {
         self.ops.push(op.text());
         self.out.eval("C18");
         if res.is_ok() { return false; }
+        if op.name == "query" {
+            // tie: the store the panic leaves behind must be, copy by copy, the tree the model records for the
+            // k-th `expiration()` call of this query
+            let post = self.real.as_ref().unwrap().state().unwrap_or_else(|e| format!("ABSFAIL {}", e));
+            let mut lv = format!("LV {} {} {} {}", self.last_q.map_or("none".to_string(), |t| t.to_string()), self.lo, self.hi, self.all_vals.len());
+            for v in &self.all_vals { lv.push_str(&format!(" {} {} {} {}", v.0, v.1, v.2, v.3)); }
+            writeln!(self.out.req, "seg {} | {} | {} | inj {}", op.text(), pre, lv, k).unwrap();
+            writeln!(self.out.exp, "out=panic | st={} | tr=", post).unwrap();
+            writeln!(self.out.ctx, "H{} {}", self.hid, self.ops.len() - 1).unwrap();
+            self.out.lines += 1;
+        }
         match op.name.as_str() {
             // (the unchanged code makes no callback while inserting: this is reached only if it starts to)
             "insert" => { let a = op.a.clone(); self.probe_all_or_nothing((a[0], a[1], a[2], a[3])); }
